@@ -199,7 +199,9 @@ class ExprGen:
         if k == 9:
             if r.random() < 0.4:
                 # regular expressions; the pattern depends on the salt so that threads differ
-                pat = r.choice(["^a", "b$", "^[a-z]+$", "a.c", "^$", "[0-9]+"]) + r.choice(["", f"|x{self.salt}"])
+                pats = ["^a", "b$", "^[a-z]+$", "a.c", "^$", "[0-9]+", "^[^0-9]*$", "c"]
+                # rotated by the salt: generators that share a shape still use different patterns
+                pat = pats[(r.randrange(len(pats)) + self.salt) % len(pats)]
                 return f'{self.str_(d - 1)}.matches("{pat}")'
             fn = r.choice(["startsWith", "endsWith", "contains"])
             return f"{self.str_(d - 1)}.{fn}({self.str_(0)})"
